@@ -1072,6 +1072,17 @@ def correspondence(run):
             rcalls.append(dict(base, fn="search", keys=allkeys))
             rcalls.append(dict(base, fn="searchAll", keys=allkeys))
             rcalls.append(dict(base, fn="replaceBy", items=[("val", 2), ("lit", "-"), ("val", "x"), ("val", 1)], count=0, form=0))
+    # flag families: ONE pattern compiled under all 8 flag combinations in a row (ascending and descending), on
+    # subjects where each flag matters - regex objects must not be confused across calls of one process
+    import itertools as _it
+    combos = list(_it.product([False, True], repeat=3))
+    for pat in ["a.c", "(?P<x>a).(c)", "^c", "a$", "(a)(?P<y>.)"]:
+        for order in (combos, combos[::-1]):
+            for flags in order:
+                for sj in ["a\nc", "A\nc", "xa\nc\nab", "b\nc\na"]:
+                    allkeys = list(range(0, re.compile(pat).groups + 3)) + NAMES
+                    rcalls.append({"fn": "matches", "pat": pat, "flags": flags, "s": sj, "form": 0})
+                    rcalls.append({"fn": "search", "pat": pat, "flags": flags, "s": sj, "keys": allkeys})
     rcalls += [random_regex_call(rng) for _ in range(run.n(1500, 20000))]
     terms, meta = [], []
     for i, rc in enumerate(rcalls):
